@@ -1283,3 +1283,72 @@ def _dmig_number(num, mtype, spec):
 ''', _DMIG_TERM, ["C13-R1"], "wtdmig: the term formatted by a module-level helper that gets the spec as an argument (F12 keys must survive)",
             "another spec that is too narrow (not the known finding)")
 )
+
+# ---- further spellings met while generalising the rules (second pass)
+_RDGRIDS_PAD = '''        c = np.size(v, 1)
+        if c < 8:
+            v = np.hstack((v, np.zeros((np.size(v, 0), 8 - c))))
+        return v
+'''
+
+RECIPES += (
+    _pair('''        nrows, c = v.shape
+        if c < 8:
+            out = np.zeros((nrows, 8))
+            out[:, :c] = v
+            return out
+        return v
+''', '''        nrows, c = v.shape
+        if c < 8:
+            out = np.zeros((nrows, 7))
+            out[:, :c] = v
+            return out
+        return v
+''', _RDGRIDS_PAD, ["C13-R3"], "rdgrids: a zero array of 8 columns allocated and the card columns copied in", "7 columns allocated")
+    # two other ways to test symmetry (a stricter test than the original: not output-identical for nearly symmetric matrices, so only the broken
+    # variants are kept - they are reported as violations only because the rule understands the form)
+    + [("C13", "break", ["C13-R3"], B, _DMIG_FORM, '''        else:
+            if np.allclose(m - m.conj().T, 0):
+                form = 6
+            else:
+                form = 1
+''', "wtdmig: symmetric test on the difference with the conjugate transpose"),
+       ("C13", "break", ["C13-R3"], B, _DMIG_FORM, '''        else:
+            if not (m != m.T.conj()).any():
+                form = 6
+            else:
+                form = 1
+''', "wtdmig: symmetric test as `no element differs from the conjugate transpose`")]
+    + _pair('''    n = len(ints)
+    firstline = 10 - start
+    f.write(("{:8d}" * min(n, firstline) + "\\n").format(*ints[:firstline]))
+    nlines = (n - firstline + 7) // 8  # continuation lines
+    for k in range(nlines):
+        lo = firstline + 8 * k
+        chunk = ints[lo : lo + 8]
+        f.write(("{:8s}" + "{:8d}" * len(chunk) + "\\n").format("", *chunk))
+''', '''    n = len(ints)
+    firstline = 10 - start
+    f.write(("{:8d}" * min(n, firstline) + "\\n").format(*ints[:firstline]))
+    nlines = (n - firstline + 7) // 8  # continuation lines
+    for k in range(nlines):
+        lo = firstline + 8 * k
+        chunk = ints[lo : lo + 8]
+        f.write(("{:8s}" + "{:8d}" * 8 + "\\n").format("", *chunk))
+''', _NASINTS, ["C13-R4"], "wtnasints: continuation lines counted by a ceiling division, positions from the line number", "the last line is given 8 fields whatever is left")
+    + _pair('''        vec = d[tid]
+        d[tid] = np.stack((vec[8:-1:2], vec[9:-1:2]), axis=1)
+''', '''        vec = d[tid]
+        d[tid] = np.stack((vec[8:-1:2], vec[9:-2:2]), axis=1)
+''', '''        vec = d[tid]
+        d[tid] = np.vstack([vec[8:-1:2], vec[9:-1:2]]).T
+''', ["C13-R3"], "rdtabled1: np.stack(..., axis=1)", "the last ordinate is cut off")
+    + [("C13", "neutral", [], B, '''        vec = d[tid]
+        d[tid] = np.vstack([vec[8:-1:2], vec[9:-1:2]]).T
+''', '''        vec = d[tid]
+        d[tid] = np.array(list(zip(vec[8:-1:2], vec[9:-1:2])))
+''', "rdtabled1: rows from zip"),
+       ("C13", "neutral", [], B, '''        for col in range(m.shape[1]):
+            if m[:, col].any():''', '''        for col, column in enumerate(m.T):
+            if column.any():''', "wtdmig: columns by enumerate(m.T)")]
+)
